@@ -1,7 +1,7 @@
 #!/usr/bin/env python3
 """Writes seeded/<ID>/meta.json from the sub-agent's notes, my confirmation logs (.cache/confirm) and the check output."""
 import json,os,re,subprocess
-first_run={'C01':'missed','C02':'missed','C03':'missed','C04':'missed','C05':'missed','C06':'missed','C07':'missed','C08':'missed','C09':'caught','C10':'missed','C11':'caught','C12':'caught','C13':'missed','C14':'missed','C15':'missed','C16':'missed','C17':'caught (check built afterwards, without looking at the change)','C18':'caught','C19':'missed','C20':'caught'}
+first_run={'C01':'caught','C02':'missed','C03':'missed','C04':'missed','C05':'missed','C06':'missed','C07':'missed','C08':'missed','C09':'caught','C10':'missed','C11':'caught','C12':'caught','C13':'missed','C14':'missed','C15':'missed','C16':'missed','C17':'caught (check built afterwards, without looking at the change)','C18':'caught','C19':'missed','C20':'caught'}
 for i in range(1,21):
     pid=f'C{i:02d}'; d=f'/verif/seeded/{pid}'
     if not os.path.exists(f'{d}/agent_meta.json'): continue
